@@ -16,7 +16,7 @@ CHECK = dict(
          "SOURCE_DATE_EPOC pinned for a sample: job crossproc), all re-checked after Close for layouts. "
          "Non-trivial = successful Apply of >=2 options of which at least one touches layers or media types; distinct by (option multiset, image shape, endpoints).",
     jobs=[dict(REPLAY, env=_ENV),
-          rapid("prop", "TestVerifProp", 20000, 240000, sq=16, st=16, env=_ENV),
+          rapid("prop", "TestVerifProp", 20000, 160000, sq=16, st=16, env=_ENV),
           rapid("crossproc", "TestVerifCrossProc", 480, 6400, sq=8, st=16, env=_ENV)],
     technique="property-based testing (rapid): generated images, endpoint pairings and option programs run through mod.Apply against an in-process model registry and raw OCI layouts; "
               "independent closure auditor (encoding/json, crypto, compress/gzip, zstd) as oracle",
